@@ -17,7 +17,7 @@ EXPLANATION = (
     "(a delta between two different non-empty spins is 0, the term is lost) and give the final index map or 0; running into "
     "an index that is still present is marked; order_substitutions is evaluated through; Expr(0, ..) is a zero accumulator "
     "whose assumptions/target indices are recorded. "
-    "R15f: integrate_spin on 4 model expressions (22 terms: ERI, deltas, t-amplitudes, an asymmetric block table, "
+    "R15f: integrate_spin on 7 model expressions (30 terms: ERI, deltas, t-amplitudes, an asymmetric block table, "
     "unknown tensors, prefactors, pure numbers, objects that carry an index twice - a block that gives such an index two "
     "spins does not contribute) for every target spin string: the returned sum contains, for every term, "
     "exactly one substituted copy per spin assignment of ALL its indices that agrees with the target spins and gives "
@@ -26,7 +26,15 @@ EXPLANATION = (
     "Expr.__iadd__ refuses it otherwise), an expression without terms gives the empty accumulator; every scenario is run with "
     "and without provided target indices; accumulators start at 0 with the assumptions of the input and carry the target indices (same names, requested "
     "spins) iff the input had target indices; non-Expr input, spin/target length mismatch, one target index with two "
-    "spins, foreign term targets and spatial-orbital input are refused. R15a: the term with two unassigned contracted "
+    "spins, foreign term targets and spatial-orbital input are refused. "
+    "R15i: a term with a factor that is a sum, or the square of a sum (a Polynom object: no spin blocks of its own, carries the "
+    "indices of its summands) is integrated like its expansion: the model knows for every such term the products of its "
+    "expansion ((A+B)*C -> A*C, B*C; (A+B)^2 -> AA, AB, BA, BB; two sums in one term; a summand that is a pure number), "
+    "x.expand() on the sympy object of the expression / of a term, on a term (new container) and on an expression (in place) "
+    "distributes, Expr(<such a sum>, **assumptions) is a container of these terms with the target indices passed as "
+    "target_idx; the result has to consist of exactly the brute-force spin variants of every product of the expansion (so the "
+    "spin-forbidden blocks of the tensors inside the sum do not occur), no spin variant of the unexpanded term, and the "
+    "caller's container must not be expanded in place (8 terms with sums in 2 of the 7 expressions, all target spins). R15a: the term with two unassigned contracted "
     "indices yields the 4 distinct variants (the variants do not share state). R15b: terms without any object of known "
     "spin blocks are kept (the fold over objects has a neutral element). R15c: Obj.expand_antisym_eri for all 16+1 spin "
     "patterns of <pq||rs>, exponents 1, 2, n, both return modes: [d(sp,sr)d(sq,ss)(pr|qs) - d(sp,ss)d(sq,sr)(ps|qr)]^exponent "
@@ -53,7 +61,10 @@ ASSUMPTIONS = [
     "the former package-wide sweeps for shallow-copy aliasing (R15a) and unit-less folds (R15b) outside the spin "
     "integration functions were pattern matches on source spelling and are no longer performed; inside integrate_spin, "
     "allowed_spin_blocks and transform_to_spatial_orbitals their consequences are decided by evaluation",
-    "simplify and Expr.expand are taken to be value preserving (not decided here); of sympy's subs/xreplace only the "
+    "simplify is taken to be value preserving (not decided here); sympy's expand is modelled as the distribution of "
+    "products over sums of the model terms (like products are not collected: AB and BA of a squared sum stay two terms "
+    "of the same value); sums nested inside sums and symbolic exponents of sums are not in the model; "
+    "of sympy's subs/xreplace only the "
     "index renaming and the evaluation of Kronecker deltas between different spins are modelled",
     "the operator matrix (tensor_names.operator), the ground state density and the ADC amplitude vectors get no spin blocks "
     "from the library (None = every block); for spin conserving values of these tensors the restricted result over-counts "
@@ -67,6 +78,24 @@ EC = "expr_container:"
 
 ERI = ("aaaa", "abab", "abba", "baab", "baba", "bbbb")
 DELTA = ("aa", "bb")
+
+
+SUM, SUM2 = "sum", "sum**2"
+
+
+def expand_spec(objs):
+    """the products of a term with sums among its factors: [[(label, indices, blocks), ..], ..] (the term itself if
+    there is no sum); a squared sum contributes every ordered pair of its summands"""
+    out = [[]]
+    for lab, ix, bl in objs:
+        if bl in (SUM, SUM2):
+            alts = [list(a) for a in ix]
+            if bl == SUM2:
+                alts = [a + b for a in alts for b in alts]
+            out = [o + a for o in out for a in alts]
+        else:
+            out = [o + [(lab, ix, bl)] for o in out]
+    return out
 
 
 def t_blocks(n):
@@ -89,6 +118,7 @@ class World:
         self.accs = {}
         self.log = []
         self.values = {}
+        self.rewrapped = 0
 
     def idx(self, name, spin=""):
         k = (name, spin)
@@ -102,7 +132,14 @@ class World:
         return tuple(self.idx(n, s) for n, s in zip(names, spins or [""] * len(names)))
 
     def term(self, name, objs, target=()):
-        """objs: [(label, index records, blocks | None)]"""
+        """objs: [(label, index records, blocks | None)]; a factor that is a sum (to a power): (label, [summand, ..], SUM | SUM2)
+        with summand = [(label, index records, blocks), ..].  Such a factor is one object (a Polynom) without spin blocks
+        that carries the indices of its summands; the term knows its expansion (one model term per product)."""
+        expansion = None
+        if any(bl in (SUM, SUM2) for _, _, bl in objs):
+            expansion = [self.term(f"{name}/{k}", eobjs, target) for k, eobjs in enumerate(expand_spec(objs))]
+            objs = [(lab, tuple(sorted({i for alt in ix for _, jx, _ in alt for i in jx}, key=KEY)), None) if bl in (SUM, SUM2)
+                    else (lab, ix, bl) for lab, ix, bl in objs]
         os_ = []
         for lab, ix, blocks in objs:
             o = Obj(None, f"{name}.{lab}")
@@ -113,14 +150,31 @@ class World:
         t = Obj(None, name)
         sy = Obj(None, name + ".sympy")
         sy.attrs.update(_objects=[(tuple(ix), blocks is DELTA and len(ix) == 2) for _, ix, blocks in objs])
+        sy.attrs.update(_term=t)
+        if expansion:
+            t.attrs.update(_expansion=expansion)
         t.attrs.update(objects=os_, idx=allidx, target=tg, sympy=sy,
                        contracted=tuple(sorted((i for i in set(allidx) if i not in tg), key=KEY)))
         return t
 
-    def expr(self, name, terms, assumptions, provided):
+    def sum_of(self, name, terms):
+        """the sympy object of a container: the sum of the sympy objects of its model terms"""
+        sy = Obj(None, name)
+        sy.attrs.update(_sum=list(terms))
+        return sy
+
+    def expr(self, name, terms, assumptions, provided, sympy=None):
         e = Obj(EC + "Expr", name)
-        e.attrs.update(terms=list(terms), assumptions=dict(assumptions), provided_target_idx=provided)
+        e.attrs.update(terms=list(terms), assumptions=dict(assumptions), provided_target_idx=provided,
+                       sympy=sympy if sympy is not None else self.sum_of(name + ".sympy", terms))
+        for t in terms:
+            t.attrs["_expr"] = e
         return e
+
+    def expansion(self, t):
+        """the model terms of the expanded model term ``t`` (products distributed over the sums among its factors);
+        a term without a sum is its own expansion"""
+        return t.attrs.get("_expansion") or [t]
 
     # hooks: the vocabulary of the analysed functions
     def hooks(self):
@@ -156,8 +210,17 @@ class World:
             return [W.idx(n, s) for n, s in zip(names, spins)]
 
         def expr_ctor(sx, a, kw):
+            init = a[0] if a else kw.get("e")
+            opts = {k: v for k, v in kw.items() if k != "e"}
+            if isinstance(init, Obj) and ("_sum" in init.attrs or ("_term" in init.attrs and "_origin" not in init.attrs)):
+                # a container around the (expanded) sympy object of a model expression / model term: its terms are the
+                # model terms of that sum, target indices as passed (Expr.__init__: target_idx)
+                W.rewrapped += 1
+                return W.expr(f"Expr({init.name})", init.attrs["_sum"] if "_sum" in init.attrs else [init.attrs["_term"]],
+                              opts, opts.get("target_idx"), sympy=init)
             o = Obj(None, f"Expr#{len(W.accs)}")
-            o.attrs.update(init=a[0] if a else kw.get("e"), kw={k: v for k, v in kw.items() if k != "e"}, target=None)
+            tg = opts.get("target_idx")
+            o.attrs.update(init=init, kw=opts, target=None if tg is None or isinstance(tg, T) else tuple(tg))
             W.accs[o.name] = o
             return o
 
@@ -214,6 +277,32 @@ class World:
         def ident(sx, a, kw):
             return a[0]
 
+        def expand(sx, a, kw):
+            """x.expand(): products are distributed over sums.  x: the sympy object of a model expression or of a model
+            term, a model term (Term.expand: a new container) or a model expression (Expr.expand: in place)"""
+            recv = a[0]
+            if not isinstance(recv, Obj) or len(a) > 1 or kw:
+                return NotImplemented
+            at = recv.attrs
+            if "_sum" in at:
+                new = [x for t in at["_sum"] for x in W.expansion(t)]
+                return recv if len(new) == len(at["_sum"]) else W.sum_of(f"expand({recv.name})", new)
+            if "_term" in at and "_origin" not in at:
+                new = W.expansion(at["_term"])
+                return recv if new == [at["_term"]] else W.sum_of(f"expand({recv.name})", new)
+            if "objects" in at and "sympy" in at and "_expr" in at:
+                parent = at["_expr"]
+                new = W.expansion(recv)
+                return W.expr(f"expand({recv.name})", new, parent.attrs["assumptions"], parent.attrs["provided_target_idx"],
+                              sympy=at["sympy"] if new == [recv] else None)
+            if "terms" in at and "assumptions" in at and isinstance(at.get("sympy"), Obj) and "_sum" in at["sympy"].attrs:
+                at["sympy"] = expand(sx, [at["sympy"]], {})
+                at["terms"] = list(at["sympy"].attrs["_sum"])
+                for t in at["terms"]:
+                    t.attrs["_expr"] = recv
+                return recv
+            return NotImplemented
+
         def add(sx, a, kw):
             return t_add(*[x.term if isinstance(x, Obj) else x for x in a])
 
@@ -224,7 +313,7 @@ class World:
             return KEY(a[0]) if isinstance(a[0], Obj) else NotImplemented
 
         return {"get_symbols": get_symbols, "Expr": expr_ctor, "set_target_idx": set_target_idx, "subs": subs, "xreplace": xreplace,
-                "simplify": ident, "sort_idx_canonical": sort_key, "Add": add, "Mul": mul}
+                "simplify": ident, "sort_idx_canonical": sort_key, "Add": add, "Mul": mul, "expand": expand}
 
 
 def _dead(objs, cur):
@@ -324,7 +413,9 @@ def check_accumulators(ctx, rule, fn, what, W, used, assumptions, target, key):
             ctx.bad(rule, fn, f"{what}: summand {nm} is not an accumulator created by Expr(..)", key=f"{key} foreign {nm}")
             continue
         init = acc.attrs["init"]
-        ctx.check(rule, fn, is_num(init) and init == 0 and acc.attrs["kw"] == assumptions,
+        # target_idx among the keywords only presets the target indices (recorded in acc.target, decided below)
+        ctx.check(rule, fn, is_num(init) and init == 0 and
+                  {k: v for k, v in acc.attrs["kw"].items() if k != "target_idx"} == {k: v for k, v in assumptions.items() if k != "target_idx"},
                   f"{what}: accumulator starts at 0 with the assumptions of the input",
                   f"{what}: accumulator Expr({show(init)}, {acc.attrs['kw']}) instead of Expr(0, {assumptions})", key=f"{key} accumulator")
         got = acc.attrs["target"]
@@ -368,6 +459,19 @@ def _families():
             ("C2", "R15f", [("d", "ik", DELTA), ("d", "jl", DELTA)]),
             ("C3", "R15f", [("t2", "ijab", t_blocks(2)), ("t2", "klab", t_blocks(2))]),
         ]),
+        # R15i: factors that are sums (Polynom objects, no spin blocks of their own): integrated like the expansion
+        "P": ("ia", [
+            ("P1", "R15i", [("S", [[("f", "ij", DELTA)], [("I", "ij", ("ab", "ba"))]], SUM), ("Y", "ja", X)]),
+            ("P2", "R15i", [("t2", "ijab", t_blocks(2)), ("S", [[("V", "jkbc", ERI), ("t1", "kc", t_blocks(1))], [("f", "jb", DELTA)]], SUM)]),
+            ("P3", "R15i", [("X", "ia", X), ("S", [[("c", "", X)], [("d", "jk", DELTA), ("f", "kj", X)]], SUM)]),
+            ("P4", "R15f", [("V", "ijab", ERI), ("Y", "jb", X)]),
+            ("P5", "R15i", [("S", [[("d", "ij", DELTA)], [("f", "ij", DELTA)]], SUM), ("S", [[("d", "ja", DELTA)], [("Y", "ja", X)]], SUM)]),
+        ]),
+        "Q": ("", [
+            ("Q1", "R15i", [("S", [[("f", "ij", DELTA)], [("p", "ij", DELTA)]], SUM2)]),       # (f_ij + p_ij)^2
+            ("Q2", "R15i", [("S", [[("c", "", X)], [("d", "ij", DELTA), ("f", "ji", X)]], SUM)]),   # c + d_ij f_ji: a number appears
+            ("Q3", "R15i", [("c", "", X), ("S", [[("V", "ijab", ERI)], [("t2", "ijab", t_blocks(2))]], SUM2)]),
+        ]),
         "Z": ("ia", []),    # no term at all: the result is the empty accumulator with the requested targets
         "D": ("kc", [
             ("D1", "R15a", [("d", "ab", X), ("z", "ba", X), ("t", "ck", t_blocks(1))]),
@@ -376,11 +480,30 @@ def _families():
     }
 
 
+def _mobjs(W, objs):
+    return [(lab, [_mobjs(W, alt) for alt in ix], bl) if bl in (SUM, SUM2) else (lab, W.ix(ix), bl) for lab, ix, bl in objs]
+
+
+def _expanded_family(fam):
+    """the terms of the expanded expression: (name, rule, objects without sums, name of the term it comes from)"""
+    out = []
+    for name, rule, objs in fam:
+        prods = expand_spec(objs)
+        if any(bl in (SUM, SUM2) for _, _, bl in objs):
+            out.extend((f"{name}/{k}", rule, eobjs, name) for k, eobjs in enumerate(prods))
+        else:
+            out.append((name, rule, objs, name))
+    return out
+
+
 def _build_isr(W, fam, target, spins, provided):
     terms = []
     for name, rule, objs in fam:
-        terms.append(W.term(name, [(lab, W.ix(ix), bl) for lab, ix, bl in objs], W.ix(target)))
-    e = W.expr("expr", terms, {"real": True, "sym_tensors": ("x",)}, W.ix(sorted(set(target))) if provided else None)
+        terms.append(W.term(name, _mobjs(W, objs), W.ix(target)))
+    tg = W.ix(sorted(set(target))) if provided else None
+    # Expr.assumptions carries the provided target indices (key target_idx)
+    e = W.expr("expr", terms, {"real": True, "sym_tensors": ("x",), "target_idx": tg}, tg)
+    W.input, W.input_state = e, (e.attrs["sympy"], [id(t) for t in terms])
     return dict(expr=e, target_idx=target, target_spin=spins)
 
 
@@ -393,7 +516,8 @@ def r15f(ctx):
             tag = f"{spins}{' with targets' if provided else ''}"
             what = f"integrate_spin(family {fname}, targets {target or '-'} = {spins or '-'}{', target indices provided' if provided else ''})"
             res = evaluate(ctx, fn, lambda W: _build_isr(W, fam, target, spins, provided), what)
-            n += len(fam)
+            efam = _expanded_family(fam)
+            n += len(efam)
             rets = [(o, W) for o, W in res if o.kind == "return"]
             if len(res) != 1 or len(rets) != 1:
                 ctx.bad("R15f", fn, f"{what}: the model evaluation does not return on a single path: "
@@ -403,7 +527,7 @@ def r15f(ctx):
             parts = flat(o.value, W)
             fixed = dict(zip(target, spins))
             left = list(parts)
-            for name, rule, objs in fam:
+            for name, rule, objs, parent in efam:
                 mobjs = [(lab, W.ix(ix), bl) for lab, ix, bl in objs]
                 indices = [i for _, ix, _ in mobjs for i in ix]
                 recv = sym(name + ".sympy")
@@ -420,12 +544,25 @@ def r15f(ctx):
                 missing, surplus = multiset_diff(multiset(map(repr, mine)), multiset(map(repr, want)))
                 why = ""
                 if missing or surplus:
-                    why = (f"{what}: term {name} = {' '.join(lab + '_' + ix for lab, ix, _ in objs)}: {len(want)} spin assignments "
+                    src = f" (a product of the expansion of term {parent}, which has a sum among its factors)" if parent != name else ""
+                    why = (f"{what}: term {name} = {' '.join(lab + '_' + ix for lab, ix, _ in objs)}{src}: {len(want)} spin assignments "
                            f"of its indices are consistent with the target spins and the allowed blocks; the result contains "
                            f"{len(mine)} contributions; missing {len(missing)}: {missing[:2]}; surplus (wrong or repeated) "
                            f"{len(surplus)}: {surplus[:2]}")
                 ctx.check(rule, fn, not why, f"{what}: term {name}: exactly the {len(want)} consistent spin assignments, each once",
                           why, key=f"{fname} {tag} {name}")
+            for name in sorted({parent for nm, _, _, parent in efam if parent != nm}):
+                raw = [p for p in left if isinstance(p, T) and (p.op == "subs" and p.args[0] == sym(name + ".sympy") or
+                                                                p in (sym(name), sym(name + ".sympy")))]
+                left = [p for p in left if not any(p is q for q in raw)]
+                ctx.check("R15i", fn, not raw, f"{what}: term {name} (a sum among its factors) enters only through its expansion",
+                          f"{what}: term {name} has a factor that is a sum; the sum is an object without spin blocks of its own, so the "
+                          f"term has to be integrated as its expansion (A+B)*C = A*C + B*C; the result contains {len(raw)} spin "
+                          f"variant(s) of the unexpanded term, in which the spin-forbidden blocks of the tensors inside the sum occur: "
+                          f"{[show(x)[:100] for x in raw[:2]]}", key=f"{fname} {tag} {name} unexpanded")
+            if W.input.attrs["sympy"] is not W.input_state[0] or [id(t) for t in W.input.attrs["terms"]] != W.input_state[1]:
+                ctx.bad("R15i", fn, f"{what}: the input expression is modified (expanded in place); the caller's container has to be left as it is",
+                        key=f"{fname} {tag} input modified")
             accs = [p.args[0] for p in left if isinstance(p, T) and p.op == "sym" and str(p.args[0]).startswith("Expr#")]
             other = [p for p in left if not (isinstance(p, T) and p.op == "sym" and str(p.args[0]).startswith("Expr#"))]
             ctx.check("R15f", fn, not other, f"{what}: nothing but the spin variants of the terms",
@@ -435,7 +572,7 @@ def r15f(ctx):
                       key=f"{fname} {tag} result")
             want_t = tuple(nm + "_" + s for nm, s in zip(target, spins)) if provided else None
             check_accumulators(ctx, "R15f", fn, what, W, accs, {"real": True, "sym_tensors": ("x",)}, want_t, f"{fname} {tag}")
-    ctx.floor("R15f", "terms of the integrate_spin model evaluated", n, 180)
+    ctx.floor("R15f", "terms of the integrate_spin model evaluated", n, 300)
     # input guards
     fam = _families()["A"][1][:3]
 
@@ -1028,7 +1165,7 @@ def run(ctx):
     _NAMES.update(tensor_name_fields(ctx.model))
     if ctx.want("R15g"):
         r15g(ctx)
-    if ctx.want("R15f") or ctx.want("R15a") or ctx.want("R15b"):
+    if ctx.want("R15f") or ctx.want("R15a") or ctx.want("R15b") or ctx.want("R15i"):
         r15f(ctx)
     if ctx.want("R15c"):
         r15c(ctx)
